@@ -233,6 +233,34 @@ func checkC12Sign(c c12SignCase) error {
 			return finding("returned-location", "returned 260 = %v, want %q", msg.Headers.Protected[int64(260)], b.Location)
 		}
 	}
+	// the headers returned by VerifyHashEnvelope are re-used as the base of another envelope (a relay
+	// that re-signs under its own key): they are the caller's maps now and must stay untouched
+	base2 := cose.Headers{Protected: msg.Headers.Protected, Unprotected: msg.Headers.Unprotected}
+	delete(base2.Protected, int64(1))
+	snap := bridge.Dump(base2)
+	other := refcose.KeyMat{Alg: refcose.AlgES256, D: rc.Hex("c12-second-signer")}
+	if b.Key.Alg == refcose.AlgES256 {
+		other = refcose.KeyMat{Alg: refcose.AlgEdDSA, D: rc.Hex("c12-second-signer-seed-32-bytes!!")}
+	}
+	sg2, err := libSigner(other, false)
+	if err != nil {
+		return err
+	}
+	for round := 0; round < 2; round++ {
+		out2, err2 := cose.SignHashEnvelope(refcose.NewEntropy([]byte("c12b")), sg2, base2, c.payload())
+		if after := bridge.Dump(base2); after != snap {
+			return finding("caller-headers-modified", "SignHashEnvelope modified headers that came from VerifyHashEnvelope and were re-used as base (round %d)\nbefore=%s\n after=%s", round, snap, after)
+		}
+		if err2 != nil {
+			return finding("resign-refused", "re-signing the returned headers under another key fails (round %d): %v", round, err2)
+		}
+		ver2, _ := libVerifier(other, false)
+		if _, err := cose.VerifyHashEnvelope(ver2, out2); err != nil {
+			return finding("own-envelope-refused", "re-signed envelope refused: %v", err)
+		}
+		sg2, other = sg, b.Key // second round: back under the first key, same base maps
+	}
+	stats.Class("produced/re-signed-from-returned-headers")
 	stats.Class("produced")
 	if len(c.Edits) > 0 {
 		stats.Class("produced-with-governed-labels-in-base")
@@ -327,6 +355,31 @@ type c12VerifyCase struct {
 	Entropy rc.Hex         `json:"entropy"`
 }
 
+// c12Envelope builds the reference-signed envelope of a consumer-side case.
+func c12Envelope(c *c12VerifyCase) []byte {
+	p, u := applyEdits(c.Prot, c.Unprot, c.Edits)
+	content := []byte{}
+	if len(p.M) > 0 {
+		content = rc.Encode(p, nil)
+	}
+	var ext []byte
+	if c.Ext {
+		ext = []byte("external")
+	}
+	sig := refcose.Sign(c.Key.Alg, c.Key, refcose.SigStructure1(content, ext, c.Hash), c.Entropy)
+	if c.BadSig {
+		sig[0] ^= 1
+	}
+	w := []byte{0xd2, 0x84}
+	if c.Untag {
+		w = []byte{0x84}
+	}
+	w = append(w, rc.Encode(rc.Bytes(content), nil)...)
+	w = append(w, rc.Encode(u, nil)...)
+	w = append(w, rc.Encode(rc.Bytes(c.Hash), nil)...)
+	return append(w, rc.Encode(rc.Bytes(sig), nil)...)
+}
+
 func checkC12Verify(c c12VerifyCase) error {
 	p, u := applyEdits(c.Prot, c.Unprot, c.Edits)
 	content := []byte{}
@@ -404,6 +457,20 @@ func init() { register("c12verify", checkC12Verify) }
 func TestC12_Verify(t *testing.T) {
 	begin(t, "C12", "verify")
 	prop(t, func(rt *rapid.T) {
+		c := genC12VerifyCase(rt)
+		stats.Eval()
+		if len(c.Edits) > 0 {
+			stats.NTBytes([]byte(fmt.Sprintf("%+v", c)))
+			if len(c.Edits) == 1 {
+				stats.Sample("verify", map[string]any{"edits": c.Edits, "hash_len": len(c.Hash), "prot": c.Prot.String()})
+			}
+		}
+		judge(rt, "c12verify", c, checkC12Verify)
+	})
+}
+
+func genC12VerifyCase(rt *rapid.T) c12VerifyCase {
+	{
 		ho := peerHdrOpts()
 		ho.MaxEntries = 6
 		ho.NoCty = true
@@ -438,13 +505,6 @@ func TestC12_Verify(t *testing.T) {
 		c.BadSig = rapid.IntRange(0, 9).Draw(rt, "badsig") == 0
 		c.Untag = rapid.IntRange(0, 19).Draw(rt, "untag") == 0
 		c.Ext = rapid.IntRange(0, 19).Draw(rt, "ext") == 0
-		stats.Eval()
-		if len(c.Edits) > 0 {
-			stats.NTBytes([]byte(fmt.Sprintf("%+v", c)))
-			if len(c.Edits) == 1 {
-				stats.Sample("verify", map[string]any{"edits": c.Edits, "hash_len": len(c.Hash), "prot": c.Prot.String()})
-			}
-		}
-		judge(rt, "c12verify", c, checkC12Verify)
-	})
+		return c
+	}
 }
